@@ -610,10 +610,19 @@ func (ospf *OSPFv3) DecodeFromBytes(data []byte, df gopacket.DecodeFeedback) err
 	ospf.Instance = uint8(data[14])
 	ospf.Reserved = uint8(data[15])
 
+	if int(ospf.PacketLength) > len(data) {
+		df.SetTruncated()
+		return fmt.Errorf("OSPF Version 3 packet length %d exceeds data length %d", ospf.PacketLength, len(data))
+	}
+
 	switch ospf.Type {
 	case OSPFHello:
+		if len(data) < 36 {
+			df.SetTruncated()
+			return fmt.Errorf("Packet too small for OSPF Version 3 Hello")
+		}
 		var neighbors []uint32
-		for i := 36; uint16(i+4) <= ospf.PacketLength; i += 4 {
+		for i := 36; i+4 <= int(ospf.PacketLength); i += 4 {
 			neighbors = append(neighbors, binary.BigEndian.Uint32(data[i:i+4]))
 		}
 		ospf.Content = HelloPkg{
@@ -627,8 +636,12 @@ func (ospf *OSPFv3) DecodeFromBytes(data []byte, df gopacket.DecodeFeedback) err
 			NeighborID:               neighbors,
 		}
 	case OSPFDatabaseDescription:
+		if len(data) < 28 {
+			df.SetTruncated()
+			return fmt.Errorf("Packet too small for OSPF Version 3 Database Description")
+		}
 		var lsas []LSAheader
-		for i := 28; uint16(i+20) <= ospf.PacketLength; i += 20 {
+		for i := 28; i+20 <= int(ospf.PacketLength); i += 20 {
 			lsa := LSAheader{
 				LSAge:       binary.BigEndian.Uint16(data[i : i+2]),
 				LSType:      binary.BigEndian.Uint16(data[i+2 : i+4]),
@@ -649,7 +662,7 @@ func (ospf *OSPFv3) DecodeFromBytes(data []byte, df gopacket.DecodeFeedback) err
 		}
 	case OSPFLinkStateRequest:
 		var lsrs []LSReq
-		for i := 16; uint16(i+12) <= ospf.PacketLength; i += 12 {
+		for i := 16; i+12 <= int(ospf.PacketLength); i += 12 {
 			lsr := LSReq{
 				LSType:    binary.BigEndian.Uint16(data[i+2 : i+4]),
 				LSID:      binary.BigEndian.Uint32(data[i+4 : i+8]),
@@ -659,6 +672,10 @@ func (ospf *OSPFv3) DecodeFromBytes(data []byte, df gopacket.DecodeFeedback) err
 		}
 		ospf.Content = lsrs
 	case OSPFLinkStateUpdate:
+		if len(data) < 20 {
+			df.SetTruncated()
+			return fmt.Errorf("Packet too small for OSPF Version 3 Link State Update")
+		}
 		num := binary.BigEndian.Uint32(data[16:20])
 		lsas, err := getLSAs(num, data[20:])
 		if err != nil {
@@ -671,7 +688,7 @@ func (ospf *OSPFv3) DecodeFromBytes(data []byte, df gopacket.DecodeFeedback) err
 
 	case OSPFLinkStateAcknowledgment:
 		var lsas []LSAheader
-		for i := 16; uint16(i+20) <= ospf.PacketLength; i += 20 {
+		for i := 16; i+20 <= int(ospf.PacketLength); i += 20 {
 			lsa := LSAheader{
 				LSAge:       binary.BigEndian.Uint16(data[i : i+2]),
 				LSType:      binary.BigEndian.Uint16(data[i+2 : i+4]),
